@@ -77,6 +77,9 @@ def main(argv):
     for k in ("needs_to_manifest", "what", "suite", "suite_passed", "detection_history", "origin"):
         if k in old and k not in meta:
             meta[k] = old[k]
+    ann_file = core.VERIF / "seeded" / "annotations.json"
+    if ann_file.exists():
+        meta.update(json.load(open(ann_file)).get(name, {}))
     json.dump(meta, open(out / "meta.json", "w"), indent=1)
     print(name, "demo_confirmed=", meta["demo_confirmed"], "suite=", meta.get("suite"), {c: (v["exit"], v["mechanisms"][:2]) for c, v in caught.items()})
     return 0
